@@ -41,7 +41,7 @@ PANICKY_STD = {
     "core::slice::swap",
 }
 # wrappers that do not change which value we are talking about
-TRANSPARENT = ("clone", "as_ref", "as_mut", "borrow", "borrow_mut", "deref", "deref_mut", "to_owned", "to_string", "into", "as_str", "as_slice", "cloned", "copied", "as_deref", "to_vec", "iter", "into_iter", "by_ref")
+TRANSPARENT = ("clone", "as_ref", "as_mut", "borrow", "borrow_mut", "deref", "deref_mut", "to_owned", "to_string", "into", "as_str", "as_slice", "cloned", "copied", "as_deref", "to_vec", "iter", "iter_mut", "into_iter", "by_ref")
 
 
 LEGACY_KEYS = bool(os.environ.get("VERIF_LEGACY_KEYS"))
@@ -170,6 +170,9 @@ def shape(d):
         if nm.endswith("IndexMut::index_mut"):
             # `v[i]` borrowed mutably or not is the same bounds check
             nm = nm[: -len("IndexMut::index_mut")] + "Index::index"
+        elif nm.endswith("Iterator::find"):
+            # `.find(p).unwrap()` and `.position(p).unwrap()` panic under the same condition: no element satisfies p
+            nm = nm[: -len("find")] + "position"
         return ("call", nm, tuple(shape(x) for x in d[2]))
     if k in ("unop",):
         return (k, d[1], shape(d[2]))
